@@ -1050,17 +1050,23 @@ def _primitives(chk):
         if stub._period != 3.0 or stub._trajectory is not None or stub._stability_info is not None or log != [()]:
             raise Refuted("period setter: a changed period must clear trajectory, stability info and the whole cache",
                           str((stub._period, stub._trajectory, stub._stability_info, log)))
-        stub._trajectory, log[:] = "T2", []
-        S.period.fset(stub, 3.0)
-        if stub._trajectory != "T2" or log:
-            raise Refuted("period setter: an unchanged period must not invalidate anything", str(log))
+        # a value within rounding distance of the stored one is still ANOTHER period: it is stored exactly and everything
+        # computed for the old one is dropped (re-assigning the identical value is not constrained either way)
+        for near in (3.0 * (1 + 1e-9), 3.0000000000000004, 3.0 - 1e-12):
+            stub._period, stub._trajectory, stub._stability_info, log[:] = 3.0, "T2", "S2", []
+            S.period.fset(stub, near)
+            if stub._period != near or stub._trajectory is not None or stub._stability_info is not None or log != [()]:
+                raise Refuted("period setter: a period that differs from the stored one only in the last digits is not stored / "
+                              "does not clear trajectory, stability info and the cache",
+                              f"stored 3.0, assigned {near!r}: period is {stub._period!r}, trajectory {stub._trajectory!r}, "
+                              f"stability {stub._stability_info!r}, cache resets {len(log)}", inputs={"old": 3.0, "new": near})
         try:
             S.period.fset(stub, -1.0)
             raise Refuted("period setter accepts a non-positive period", "")
         except ValueError:
             pass
-    chk.obl("orbit period setter: changed value => _trajectory, _stability_info cleared and cache reset; unchanged => nothing; "
-            "non-positive rejected", "K2 postconditions", ["hiten.algorithms.types.services.orbits:_OrbitDynamicsService.period"],
+    chk.obl("orbit period setter: changed value (far or within rounding distance) => stored exactly, _trajectory, "
+            "_stability_info cleared and cache reset; non-positive rejected", "K2 postconditions", ["hiten.algorithms.types.services.orbits:_OrbitDynamicsService.period"],
             "B4 exact evaluation", th_period)
 
     def th_degree():
@@ -1171,6 +1177,10 @@ def run(chk):
     _primitives(chk)
     _latest_results(chk)
     _handed_out_objects(chk)
+    # 'distinct quantities never share a cache entry': the process-wide compiled-field cache (shared with C01)
+    from contracts import C01 as _c01
+    chk.under_contract("hiten.algorithms.dynamics.base:_DynamicalSystem._compile_rhs_function")
+    _c01._systems_in_a_row(chk)
     _correct_history(chk)
     _stability_histories(chk)
     _cm_map_degree_history(chk)
